@@ -294,4 +294,61 @@ def Op.run : Op → M Unit
   | .allocateFill o n v => Pool.allocateFill o n v
   | .writeData o a us => Pool.writeData o a us
 
+/-! ### the two members as they were in the pinned tree (defect #16, C19)
+
+  Kept for the record: `Props/C19.lean` proves on concrete witnesses that these versions are *not*
+  safe under allocation failure (`delete[]` of the in-object array, `data()` into released storage);
+  `allocate` and `assignCopy` above mirror the repaired code. -/
+
+/-- `operator=(const buffer &copy)` before the repair: frees, zeroes the size, then `new` —
+    `m_chars` keeps pointing at the released block while `new` runs -/
+def assignCopyAsFound (o src : Nat) : M Unit := do
+  if o = src then return ()
+  let p ← getP
+  let b ← getObj o
+  if b.isReffed p.L then
+    deleteBlock b.chars
+    setObj o { b with size := 0 }
+  let c ← getObj src
+  if c.isReffed p.L then
+    let chars ← newBlock (c.size + 1)
+    let us ← readUnits c.chars c.size
+    let b ← getObj o
+    setObj o { b with chars := chars }
+    writeUnits chars 0 us
+    writeUnits chars c.size [0]
+  else
+    let b ← getObj o
+    setObj o { chars := .loc o, size := b.size, data := c.data }
+  let b ← getObj o
+  setObj o { b with size := c.size }
+
+/-- `allocate(size)` before the repair: frees / clears, **stores the new size**, then `new` -/
+def allocateAsFound (o : Nat) (n : Nat) : M Unit := do
+  let p ← getP
+  let b ← getObj o
+  if b.isReffed p.L then deleteBlock b.chars
+  else setObj o { b with data := zeros p.L }
+  let b ← getObj o
+  setObj o { b with size := n }
+  if n ≥ p.L then
+    let chars ← newBlock (n + 1)
+    let b ← getObj o
+    setObj o { b with chars := chars }
+    writeUnits chars n [0]
+  else
+    let b ← getObj o
+    setObj o { b with chars := .loc o }
+    writeUnits (.loc o) n [0]
+
+/-- the operations with the two members as found in the pinned tree -/
+def Op.runAsFound : Op → M Unit
+  | .assignCopy o s => Pool.assignCopyAsFound o s
+  | .allocate o n => Pool.allocateAsFound o n
+  | .allocateFill o n v => do
+      Pool.allocateAsFound o n
+      let b ← getObj o
+      writeUnits b.chars 0 (List.replicate n v)
+  | op => op.run
+
 end StVerif.Pool
